@@ -1,6 +1,6 @@
 """C11 - gRPC transparency: remote state == wrapped state; server never crashes."""
 import json, os, re, copy
-import vlib
+import vlib, selectorlib
 
 
 def run(ctx):
@@ -49,6 +49,7 @@ def run(ctx):
         if not m2:
             raise vlib.Infra("binding self-test: corrupted differential trace accepted")
         break
+    selectors(ctx, quick)
     ctx.assumptions += ["real gRPC over a unix socket; watch streams are compared after the remote side caught up (5 s budget)",
                         "racing calls are not part of the differential replay (sequential sequences)"]
 
@@ -91,6 +92,12 @@ def malformed(ctx, binary, quick):
         if what == "server-process-crashed" and rec.get("noopt"):
             sig = "%s-without-options" % rec["rpc"].lower()
         ctx.violation("%s/%s" % (what, sig), "%s: %s" % (what, (details[i] if i < len(details) else "")[:500]), {"request": rec})
+
+
+def selectors(ctx, quick):
+    """Label / ID queries are translated on the wire: multi-term selectors evaluated remotely must select what the algebra
+    (and the local state) selects; only the remote sites count here, C14 judges every site."""
+    selectorlib.run(ctx, quick, sites={"remote-list", "remote-watch-bootstrap"}, only_multi=True, prefix="query-translation/")
 
 
 if __name__ == "__main__":
